@@ -8,6 +8,7 @@ AXIOMS_OK = []
 ASSUMPTIONS = [
     "element types of the correspondence histories: i32 (PushStack<i32>, suite stack) and nested code items (PushStack<Item>, suite stackitem: `==` is Item's shallow PartialEq, equal_at compares the Display text; elements are reported structurally, to_string as text)",
     "raw Vec::swap indices out of range are outside the quantifier (Vec's own contract); both sides are still compared there",
+    "positions range over EVERY usize (0 .. 2^64 - 1), not only [0, len+2]: the wire checker evaluates the specification through spec_run_c (a position beyond the end is replaced by the length before it becomes a unary natural number), proved equal to spec_run (C16_clamped_evaluation_is_spec)",
 ]
 
 
@@ -186,6 +187,26 @@ def streams(seed, tier):
             ln = sim_len(ln, op)
         cases.append(sx_str([k % 2, init, ops]))
     out.append(Stream("random200", "stack", "stack.check", cases, "random histories of 200 operations, positions concentrated at the boundary"))
+    # positions far outside: `i + 1`, `len - i`, casts to narrower integers must not wrap
+    far = [2 ** 64 - 1, 2 ** 64 - 2, 2 ** 63, 2 ** 63 - 1, 2 ** 32, 2 ** 32 + 1, 2 ** 31, 2 ** 32 - 1]
+    cases = []
+    for prof in (0, 1):
+        for init in ([], [1], [1, 2, 3]):
+            for p in far:
+                ops = [[3, p, 1], [6, p, 9], [7, p], [9, p], [12, p], [13, p], [17, p], [18, p], [19, p], [0], [1]]
+                cases.append(sx_str([prof, init, ops]))
+                for op in ops[:9]:
+                    cases.append(sx_str([prof, init, [op, [0], [1]]]))
+    out.append(Stream("far-positions", "stack", "stack.check", cases,
+                      "every positional operation at positions 2^31, 2^32-1, 2^32, 2^32+1, 2^63-1, 2^63, 2^64-2, 2^64-1 on stacks of 0 / 1 / 3 elements: absent, never a failure, contents unchanged"))
+    # long stacks: more elements than any print / buffer limit someone might introduce
+    cases = []
+    for k, n in enumerate([999, 1000, 1001, 1024, 1025, 2500, 4097] if tier != "quick" else [1000, 1001, 2500]):
+        init = [(i * 7) % 23 - 11 for i in range(n)]
+        ops = [[0], [1], [3, n - 1, init[0]], [3, n - 1, init[-1]], [9, n - 1], [9, n], [12, n - 1], [10, 5], [1], [17, 3], [19, n], [8], [1], [13, n - 2], [7, n - 1], [0], [1]]
+        for prof in (0, 1):
+            cases.append(sx_str([prof, init, ops]))
+    out.append(Stream("long-stacks", "stack", "stack.check", cases, "stacks of 999..4097 elements: size, printing (every element, top first), equality probes and positional operations at the far end"))
     out += item_streams(random.Random(seed + 16), tier)
     return out
 
